@@ -55,7 +55,7 @@ Deliverables, all inside /tmp/mut/{pid}/deliver/ :
   - demo1_test.go and demo2_test.go : the demonstrations (they will be copied into the root package directory to run)
   - NOTES.md : for each change: which clause of the property it breaks, exactly what is needed for it to manifest, the exact commands you ran (build, suite, demo with and without the change) and their outcomes.
   - a one-line deliver/go.mod with `module deliver` (keeps ./... from compiling the demo copies inside deliver/).
-Before finishing, restore the worktree source to the unmodified state (git checkout -- . ; the deliver/ directory stays), and verify each diff applies cleanly with `git apply --check`.
+Never use `git stash` (the stash is shared by all worktrees of the repository and other people work in sibling worktrees): keep your edits as diff files instead. Before finishing, restore the worktree source to the unmodified state (git checkout -- . ; the deliver/ directory stays), and verify each diff applies cleanly with `git apply --check`.
 
 Report back a short summary (what each change is, what it needs to manifest, and that you verified build + suite + demo-fails-with/passes-without).
 """
